@@ -47,12 +47,12 @@ class Ctx:
             return None, f"MIR parse problems in {needle}: {probs[:3]}"
         return fn, None
 
-    def load(self, needle, ghosts=None, k=None, self_type=None, watch=None):
+    def load(self, needle, ghosts=None, k=None, self_type=None, watch=None, counters=None):
         fn, err = self.parse(needle, self_type)
         if fn is None:
             return None, err
         t0 = time.time()
-        E = sym.Evaluation(fn, self.structs, k=k if k is not None else self.k, ghosts=ghosts or {}, watch=watch)
+        E = sym.Evaluation(fn, self.structs, k=k if k is not None else self.k, ghosts=ghosts or {}, watch=watch, counters=counters)
         self.functions.append(fn.name)
         self.stats.append({"fn": fn.name[-80:], "blocks": len(fn.blocks), "dag_nodes": len(E.order),
                            "calls": len(E.events), "statements": fn.total_statements,
@@ -115,6 +115,7 @@ def run_property(pid, spec_name, tier, log, open_findings, replay_dir):
         out["samples"].append(s)
     if ctx.q.cross_check:
         out["samples"].append({"cvc5_cross_check": {"queries": ctx.q.cross_total, "agree": ctx.q.cross_agree,
+                                                      "skipped_z3_only_overflow_predicates": getattr(ctx.q, "cross_skipped", 0),
                                                       "disagreements": ctx.q.cross_disagreements[:10]}})
         log(f"[mirsym] cvc5 cross-check: {ctx.q.cross_agree}/{ctx.q.cross_total} verdicts agree")
         if ctx.q.cross_disagreements:
